@@ -178,9 +178,14 @@ def mk_data(shape, dtype, layout, seed):
 
 def rand_dimspec(rng, n, allow_bad=False):
     k = rng.choice(['none', 'none', 'int', 'float', 'pair_i', 'pair_f', 'pair_mixed', 'full_lin_i', 'full_lin_f', 'full_nonlin',
-                    'near_lin', 'decr', 'arr_pair', 'arr_full', 'const', 'tuple', 'strs'])
+                    'near_lin', 'decr', 'arr_pair', 'arr_full', 'const', 'tuple', 'strs', 'full_nonlin_i', 'arr_nonlin_i'])
     if k == 'none':
         return None
+    if k in ('full_nonlin_i', 'arr_nonlin_i'):      # non-linear integer vectors: a list of Python ints / an int64 array
+        v = sorted(rng.sample(range(-20, 60), n)) if n <= 80 else list(range(n))
+        if n >= 3 and v[1] - v[0] == v[2] - v[1]:
+            v[-1] += 7
+        return ['list' if k == 'full_nonlin_i' else 'arr', [lit(x) for x in v]]
     if k == 'strs':       # string dim vectors: full length (documented), sometimes a wrong length
         m = n if rng.random() < 0.85 else rng.choice([1, 2, n + 1])
         return ['strs', [rng.choice(['a', 'b', 'é', 'x y', 'left', '']) + str(i) for i in range(m)]]
